@@ -691,6 +691,19 @@ def coherentFrom : Option RawMetadata → List RawCell → Bool
 
 def coherent (t : RawTriangle) : Bool := coherentFrom none t
 
+/-- what `from_binary` hands back for the file `to_binary` really wrote (`encodePy`): the writer emits a metadata
+record only when Python's `!=` says the metadata changed, the reader attaches the LAST RECORD READ to every cell —
+so a cell whose metadata is Python-equal to its predecessor's (1 vs 1.0 vs True, 0.0 vs -0.0, another insertion
+order of a detail dict) comes back with the representation of the first cell of its run. `prev` = the previous
+cell's own metadata (what the writer compares with), `cur` = the last record written. -/
+def firstReprFrom : Option RawMetadata → Option RawMetadata → List RawCell → List RawCell
+  | _, _, [] => []
+  | prev, cur, c :: cs =>
+    if pyChanged prev c.md then c :: firstReprFrom (some c.md) (some c.md) cs
+    else { c with md := cur.getD c.md } :: firstReprFrom (some c.md) cur cs
+
+def firstRepr (t : RawTriangle) : RawTriangle := firstReprFrom none none t
+
 /-- walk over a cell record without building the cell -/
 def skipCellBody (pool : List (Option Bytes)) (kind : CellKind) : P Unit :=
   bindP readDate fun _ => bindP readDate fun _ => bindP readDate fun _ =>
